@@ -183,7 +183,7 @@ package notify
 
 // the fan-out hands every integration the same batch and returns it unchanged (goroutines abstracted)
 //@ func (FanoutStage).Exec
-//@   props C20 C05
+//@   props C20 C05 C06
 //@   abstract
 //@   ensures [returns-input] result1 == alerts && result0 == ctx
 //@   ensures [every-integration-started-and-awaited] count("go.stmt") == len(fs) && called("WaitGroup).Wait")
@@ -193,7 +193,7 @@ package notify
 // one integration's pipeline inside the fan-out: it gets the same batch, its failure is joined into the stage's error,
 // and it always signals completion
 //@ func (FanoutStage).Exec$1
-//@   props C20 C05
+//@   props C20 C05 C06
 //@   nosafe
 //@   at call Stage).Exec assert [same-batch-to-every-integration] arg0 == s && arg3 == deref(alerts) && arg1 == deref(ctx)
 //@   ensures [failure-is-joined] called("Stage).Exec") && (ret2("Stage).Exec") != nil ==> called("errors.Join") && deref(errs) == ret("errors.Join"))
